@@ -10,6 +10,12 @@
    v       value variant: which optional fields are present, how many SEQUENCE OF elements, which
            leaf values, whether unconsumed bytes follow the value (the harness owns the concrete
            leaf values; every variant is a well-formed DER encoding that Marshal would produce)
+           0: everything present, 2 elements   1: optional fields absent, 0 elements
+           2: everything present, 3 elements, a remainder follows
+           3: optional fields absent, 1 element (absent members INSIDE the elements of a SEQUENCE OF)
+   tf      time form (NoTF = the variant's own times): every time leaf of the value is the wall-clock
+           time `m` minutes from 1 January 00:00 of year `b`, written with the zone offset `off`
+           minutes; b is one of the years at which Marshal changes between UTCTime and GeneralizedTime
    defect  "none" or ONE malformation of the encoding, placed at the node `path` of the value tree
    mode    strict      Unmarshal(b, &T)
            laxTop      UnmarshalWithParams(b, &T, "lax")
@@ -40,20 +46,26 @@
    Outside the case space (not about byte strings): Unmarshal(b, nil) / Unmarshal(b, nonPointer) panics in
    the fork, upstream returns an invalidUnmarshalError; error texts carry the field name in the fork.
    Benign (named clauses, both decoders): RawValue contents are opaque; extra elements at the end of a
-   SEQUENCE decoded into a struct are ignored.                                                         *)
+   SEQUENCE decoded into a struct are ignored; a UTCTime may leave out the seconds (X.680 allows it, DER
+   does not).  Times written with a zone offset instead of "Z" are in the same class (clause ZoneOffset
+   below): every decoder accepts them and Marshal writes the offset back.                              *)
 EXTENDS Integers, Sequences, FiniteSets, TLC
 
 CONSTANTS
   ShapeNames,      \* the shapes explored by this instance (subset of DOMAIN Shapes)
-  Variants,        \* subset of 0..2
+  Variants,        \* subset of 0..3
   LaxTolerated,    \* malformations that lax mode - and only lax mode - accepts (property text)
   AlwaysRejected,  \* malformations every decoder in every mode rejects
   DeliberateDiff,  \* documented differences fork vs. encoding/asn1 of the installed toolchain
   Benign,          \* not DER, accepted by every decoder in every mode (named clauses, see below)
   AncestorDefects, \* defects combined with mode laxAncestor (all of them in the thorough instance)
-  Wraps            \* container stacks of mode laxAncestor (sequences of container names, outermost first)
+  Wraps,           \* container stacks of mode laxAncestor (sequences of container names, outermost first)
+  TimeBoundaries,  \* time forms: the years at which the written form of a time changes (1950, 2050)
+  TimeMinutes,     \* ... wall-clock minutes from 1 January 00:00 of the boundary year (negative: the year before)
+  TimeOffsets      \* ... zone offsets in minutes (0 is "Z", the only DER form)
 
-VARIABLE c         \* the case
+VARIABLES c,       \* the case
+          vd       \* its verdict, Verdict(c) (a variable so that the laws below evaluate it once per case)
 
 N(k, p, kids) == [k |-> k, p |-> p, kids |-> kids]
 L(k, p)       == N(k, p, <<>>)
@@ -118,6 +130,19 @@ Shapes == [
   rawc     |-> Struct({"rawcontent"}, <<L("int", {}), L("str", {}), L("oid", {}), SetOf({}, L("int", {}))>>),
   nestrawc |-> Struct({}, <<Struct({"rawcontent"}, <<L("int", {}), L("str", {})>>), L("bigint", {}),
                              L("raw", {})>>),
+  \* ---- times: one shape per way a time reaches the decoder (UTCTime / GeneralizedTime on the wire, plain /
+  \* `generalized` field, top level / struct field / SEQUENCE OF element / EXPLICIT), so that a time form can
+  \* round-trip in each (`times` above mixes the three and round-trips only in its own variants)
+  tgtop    |-> L("time2050", {}),
+  tutc     |-> Struct({}, <<L("utctime", {}), L("int", {})>>),
+  tgen     |-> Struct({}, <<L("gentime", {"generalized"})>>),
+  tplain   |-> Struct({}, <<L("int", {}), L("time2050", {})>>),
+  tseq     |-> SeqOf({}, L("utctime", {})),
+  texpl    |-> Struct({}, <<Expl({"tag0"}, L("utctime", {})), Expl({"tag1"} \cup Opt, L("utctime", {}))>>),
+  \* ---- elements of a SEQUENCE OF / SET OF with members that can be absent (X.509 Extension, AttributeTypeAndValue)
+  seqopt   |-> SeqOf({}, Struct({}, <<L("oid", {}), L("bool", Opt), L("int", {"tag1"} \cup Opt), L("bytes", {})>>)),
+  setopt   |-> Struct({}, <<SetOf({}, Struct({}, <<L("int", {}), L("str", {"utf8"} \cup Opt),
+                                                    SeqOf(Opt, L("int", {}))>>)), L("int", Opt)>>),
   \* ---- length octets: content lengths at every boundary of the length forms (short form <= 127, 81 xx <= 255,
   \* 82 xx xx <= 65535, 83 xx xx xx above).  "lenN" = the leaf has N content octets (BIT STRING: including the
   \* padding-count octet, so N >= 1); "bodyN" = the SEQUENCE body has N octets (one OCTET STRING child of the
@@ -148,7 +173,7 @@ LengthShapes == {"oct0", "oct1", "oct127", "oct128", "oct255", "oct256", "oct655
                  "seq0", "seq2", "seq127", "seq128", "seq255", "seq256", "seq65535", "seq65536"}
 LengthFormDefects == {"nonMinimalLength", "leadingZeroLength", "indefiniteLength"}
 
-Count(v) == CASE v = 0 -> 2 [] v = 1 -> 0 [] OTHER -> 3   \* elements of every SEQUENCE OF / SET OF
+Count(v) == CASE v = 0 -> 2 [] v = 1 -> 0 [] v = 3 -> 1 [] OTHER -> 3   \* elements of every SEQUENCE OF / SET OF
 
 (* ---- containers of mode laxAncestor: T sits at WrapAt(w) of Wrap(w, T) ---------------------- *)
 Wrap(w, t) ==
@@ -181,7 +206,7 @@ RootsAll(ws, v)  == IF ws = <<>> THEN {<<>>} ELSE {r \o q : r \in WrapRoots(Head
 
 (* ---- value variants ------------------------------------------------------------------------- *)
 IsOpt(n)      == "optional" \in n.p
-Present(n, v) == ~(IsOpt(n) /\ v = 1)          \* variant 1 leaves every optional field out
+Present(n, v) == ~(IsOpt(n) /\ v \in {1, 3})    \* variants 1 and 3 leave every optional field out
 HasRest(v)    == v = 2                          \* unconsumed bytes follow the value
 
 IsSeq(n) == n.k \in {"seqof", "setof"}
@@ -253,6 +278,7 @@ Applicable(d, t, v, p) ==
        [] d \in {"badBitStringPadding", "bitStringPadTooBig", "emptyBitString"} -> w = "bits"
        [] d = "badTime" -> w \in {"utc", "gen"}
        [] d = "genTimeFraction" -> w = "gen"
+       [] d = "utcNoSeconds" -> w = "utc"
        [] d = "highTagLeading80" -> HighTag(n)
        [] d = "setOfUnsorted" -> n.k = "setof" /\ Count(v) >= 2
        [] d = "rawInnerNonDER" -> n.k = "raw"
@@ -260,8 +286,36 @@ Applicable(d, t, v, p) ==
        [] OTHER -> FALSE
 
 (* ---- cases ---------------------------------------------------------------------------------- *)
-Case(s, v, d, p, m, w, f) == [shape |-> s, v |-> v, defect |-> d, path |-> p, mode |-> m, wrap |-> w, laxAt |-> f]
+NoTF == [b |-> 0, m |-> 0, off |-> 0]
+Case(s, v, d, p, m, w, f) == [shape |-> s, v |-> v, defect |-> d, path |-> p, mode |-> m, wrap |-> w, laxAt |-> f,
+                              tf |-> NoTF]
 Tree(x) == WrapAll(x.wrap, Shapes[x.shape])
+
+(* ---- time forms ------------------------------------------------------------------------------
+   X.680 46.3 / 47.3: a UTCTime carries the two-digit year, a GeneralizedTime the four-digit year OF THE TIME
+   AS WRITTEN (local time, followed by "Z" or by the difference from UTC).  RFC 5280 4.1.2.5 and both Marshal
+   implementations write a time.Time as UTCTime exactly when that written year lies in 1950..2049, otherwise
+   (or when the field says `generalized`) as GeneralizedTime.  For a time within |off| of 1 January 1950 / 2050
+   the year as written and the year of the same instant in UTC differ ("straddle"): the form is still chosen -
+   and the digits are still written - from the year as written, clause TagByWrittenYear.  Marshal consults the
+   year at more than one site (tag, body, range check); they must agree, or an accepted input cannot be
+   marshalled again at all.                                                                               *)
+TimeKinds == {"utctime", "gentime", "time2050"}
+TimeForms == {[b |-> b, m |-> m, off |-> o] : b \in TimeBoundaries, m \in TimeMinutes, o \in TimeOffsets}
+LocalYear(tf) == IF tf.m >= 0 THEN tf.b ELSE tf.b - 1                 \* the year as written
+UtcYear(tf)   == IF tf.m - tf.off >= 0 THEN tf.b ELSE tf.b - 1        \* the year of the instant in UTC
+InUTCRange(y) == 1950 <= y /\ y < 2050
+Straddles(tf) == LocalYear(tf) # UtcYear(tf)
+WireForm(n)   == IF n.k = "utctime" THEN "utc" ELSE "gen"             \* how the harness writes the leaf
+\* TagByWrittenYear: the form Marshal chooses for the decoded time
+MarshalForm(n, tf) == IF "generalized" \in n.p \/ ~InUTCRange(LocalYear(tf)) THEN "gen" ELSE "utc"
+TimeLeafPaths(t, v) == {p \in PathsOf(t, v) : NodeAt(t, p).k \in TimeKinds}
+\* a UTCTime exists only for a written year in 1950..2049
+TfOK(t, v, tf) == \A p \in TimeLeafPaths(t, v) : NodeAt(t, p).k = "utctime" => InUTCRange(LocalYear(tf))
+\* Marshal(Unmarshal(b)) = b needs Marshal to choose the form that was on the wire
+TimeRT(x) == x.tf = NoTF \/ \A p \in TimeLeafPaths(Tree(x), x.v) : MarshalForm(NodeAt(Tree(x), p), x.tf) = WireForm(NodeAt(Tree(x), p))
+RECURSIVE HasKind(_, _)
+HasKind(t, ks) == t.k \in ks \/ \E i \in DOMAIN t.kids : HasKind(t.kids[i], ks)
 
 PD(t, v) == {<<<<>>, "none">>} \cup {pd \in PathsOf(t, v) \X Defects : Applicable(pd[2], t, v, pd[1])}
 \* the defects of mode laxAncestor sit inside T
@@ -269,13 +323,26 @@ PDInside(w, t, v) == {pd \in PD(WrapAll(w, t), v) :
                         /\ pd[2] \in AncestorDefects \cup {"none"}
                         /\ (pd[2] = "none" \/ \E r \in RootsAll(w, v) : IsPrefix(r, pd[1]))}
 
+\* variant 3 differs from variant 1 only where there is a SEQUENCE OF / SET OF to hold an element
+VariantOK(t, v) == v # 3 \/ HasKind(t, {"seqof", "setof"})
 CasesV(s, t, v) ==
-  {Case(s, v, pd[2], pd[1], m, <<>>, <<>>) : pd \in PD(t, v), m \in {"strict", "laxTop"}}
-  \cup UNION {{Case(s, v, pd[2], pd[1], "laxAncestor", w, <<>>) : pd \in PDInside(w, t, v)} : w \in {x \in Wraps : WrapAllOK(x, t)}}
+  {Case(s, v, pd[2], pd[1], m, <<>>, <<>>) : pd \in {x \in PD(t, v) : VariantOK(t, v)}, m \in {"strict", "laxTop"}}
+  \cup UNION {{Case(s, v, pd[2], pd[1], "laxAncestor", w, <<>>) : pd \in PDInside(w, t, v)}
+              : w \in {x \in Wraps : WrapAllOK(x, t) /\ VariantOK(WrapAll(x, t), v)}}
   \cup {Case(s, v, pd[2], pd[1], "fieldTag", <<>>, f) :
-          pd \in {x \in PD(t, v) : x[2] \in LaxTolerated}, f \in {g \in FieldPaths(t, v) : TRUE}}
+          pd \in {x \in PD(t, v) : x[2] \in LaxTolerated /\ VariantOK(t, v)}, f \in {g \in FieldPaths(t, v) : TRUE}}
 
-Cases == UNION {UNION {CasesV(s, Shapes[s], v) : v \in Variants} : s \in ShapeNames}
+\* time forms: well-formed values only, every mode, every container of mode laxAncestor
+\* (inside the containers: the offsets of at most an hour, variant 0)
+TimeCasesV(s, t, v) ==
+  UNION {{[Case(s, v, "none", <<>>, m, <<>>, <<>>) EXCEPT !.tf = tf] : m \in {"strict", "laxTop"}}
+         \cup {[Case(s, v, "none", <<>>, "laxAncestor", w, <<>>) EXCEPT !.tf = tf]
+                 : w \in {x \in Wraps : WrapAllOK(x, t) /\ v = 0 /\ tf.off \in {-60, 0, 60}}}
+         : tf \in {x \in TimeForms : TfOK(t, v, x)}}
+TimeCases == UNION {UNION {TimeCasesV(s, Shapes[s], v) : v \in Variants \cap {0, 2}}
+                    : s \in {x \in ShapeNames : HasKind(Shapes[x], TimeKinds)}}
+
+Cases == UNION {UNION {CasesV(s, Shapes[s], v) : v \in Variants} : s \in ShapeNames} \cup TimeCases
 
 (* ---- the verdict ---------------------------------------------------------------------------- *)
 \* is lax decoding in effect at the node that carries the defect?
@@ -300,11 +367,12 @@ DefectTable(d) ==
     \* named clauses: both decoders are lenient here (the property is silent, the behaviour is definite)
     [] d = "rawInnerNonDER"      -> [strict |-> "accept", lax |-> "accept", std |-> "accept"]  \* RawValue is opaque
     [] d = "trailingInSequence"  -> [strict |-> "accept", lax |-> "accept", std |-> "accept"]  \* extra elements ignored
+    [] d = "utcNoSeconds"        -> [strict |-> "accept", lax |-> "accept", std |-> "accept"]  \* YYMMDDhhmmZ
     [] OTHER                     -> [strict |-> "reject", lax |-> "reject", std |-> "reject"]
 
 \* which decoded value an accepting decoder must produce ("same" = the value the bytes were made from)
 ValueOf(d) == IF d \in {"emptyOID", "printableIsLatin1", "printableIsT61", "genTimeFraction", "setOfUnsorted",
-                        "rawInnerNonDER"} THEN d ELSE "same"
+                        "rawInnerNonDER", "utcNoSeconds"} THEN d ELSE "same"
 
 \* the defect sits in an element of a SET OF: its encoding changes, so the SET OF may no longer be sorted and
 \* upstream's Marshal (which sorts, see setOfUnsorted) need not reproduce the input
@@ -316,7 +384,10 @@ Verdict(x) ==
       row == DefectTable(x.defect)
       md  == IF FieldTagLax(x) THEN "unasserted" ELSE IF InEffect(x) THEN row.lax ELSE row.strict
       keeps == UnderRawContent(t, x.path)       \* Marshal re-emits the preserved encoding
-      der == x.defect \in {"none", "rawInnerNonDER"}
+      der == x.defect \in {"none", "rawInnerNonDER"} /\ TimeRT(x)
+      \* MarshalAgrees (named extension, asserted because the unchanged fork satisfies it on every case): when both
+      \* packages decode the input, both marshal the decoded value to the same bytes - SET OF excepted (setOfUnsorted)
+      agree == row.std = "accept" /\ ~HasKind(t, {"setof"})
   IN [ strict   |-> row.strict,                 \* fork, Unmarshal(b, &T)
        mode     |-> md,                         \* fork, called as x.mode says
        std      |-> row.std,                    \* encoding/asn1
@@ -325,13 +396,16 @@ Verdict(x) ==
        \* Marshal(decoded) = consumed input bytes?  (asserted only where TRUE)
        rt       |-> row.strict = "accept" /\ (der \/ keeps \/ x.defect = "setOfUnsorted"),
        rtMode   |-> md = "accept" /\ (der \/ keeps \/ x.defect = "setOfUnsorted"),
-       rtStd    |-> row.std = "accept" /\ (x.defect = "none" \/ ((der \/ keeps) /\ ~ThroughSetOf(t, x.path))),
+       rtStd    |-> row.std = "accept" /\ ((x.defect = "none" /\ TimeRT(x)) \/ ((der \/ keeps) /\ ~ThroughSetOf(t, x.path))),
+       mEq      |-> row.strict = "accept" /\ agree,
+       mEqMode  |-> md = "accept" /\ agree,
        inEffect |-> InEffect(x) ]
 
 (* ---- laws (checked by TLC on every case) ---------------------------------------------------- *)
-E == Verdict(c)
+E == vd
 
 TypeOK == /\ c.mode \in {"strict", "laxTop", "laxAncestor", "fieldTag"} /\ c.defect \in Defects \cup {"none"}
+          /\ c.tf \in TimeForms \cup {NoTF} /\ (c.tf # NoTF => (c.defect = "none" /\ TfOK(Tree(c), c.v, c.tf)))
           /\ LaxTolerated \cap AlwaysRejected = {} /\ LaxTolerated \cap DeliberateDiff = {}
           /\ AlwaysRejected \cap DeliberateDiff = {} /\ Benign \cap (LaxTolerated \cup AlwaysRejected \cup DeliberateDiff) = {}
 
@@ -352,13 +426,24 @@ DiffsAreDiffs == (c.defect \in DeliberateDiff /\ ~UnderRawContent(Tree(c), c.pat
 Rejected == c.defect \in AlwaysRejected => (E.strict = "reject" /\ E.mode = "reject" /\ E.std = "reject")
 BenignAccepted == c.defect \in Benign => (E.strict = "accept" /\ E.mode = "accept" /\ E.std = "accept")
 \* Marshal(Unmarshal(b)) = b for strict DER
-RoundTrip == c.defect = "none" => (E.rt /\ E.rtMode /\ E.rtStd)
+RoundTrip == (c.defect = "none" /\ c.tf = NoTF) => (E.rt /\ E.rtMode /\ E.rtStd)
+\* ... times: strict DER is "Z"; the input round-trips when it is written in the form Marshal chooses for it
+WireMatches == \A p \in TimeLeafPaths(Tree(c), c.v) : MarshalForm(NodeAt(Tree(c), p), c.tf) = WireForm(NodeAt(Tree(c), p))
+TimeRoundTripDER == (c.tf # NoTF /\ c.tf.off = 0 /\ WireMatches) => (E.rt /\ E.rtMode /\ E.rtStd)
+\* ZoneOffset (named clause: not DER, accepted by every decoder): the offset is written back
+ZoneOffsetRoundTrip == (c.tf # NoTF /\ c.tf.off # 0 /\ WireMatches) => (E.rt /\ E.rtMode /\ E.rtStd)
+TimeFormsAccepted == c.tf # NoTF => (E.strict = "accept" /\ E.mode = "accept" /\ E.std = "accept" /\ E.value = "same")
+\* TagByWrittenYear: what is asserted of a time does not change when only its zone offset changes (the written
+\* digits stay, the instant moves - across the year boundary for the straddling forms)
+TagByWrittenYear == c.tf # NoTF => \A o \in TimeOffsets : Verdict([c EXCEPT !.tf.off = o]) = E
+\* every straddle class is in the case space (checked once, on the constants)
+StraddleClasses == {<<LocalYear(tf), UtcYear(tf)>> : tf \in {x \in TimeForms : Straddles(x)}}
 \* length octets: strict DER round-trips byte-exactly at every length-form boundary (fork and upstream), and no
 \* decoder in any mode accepts another length form
 LengthRoundTrip == (c.shape \in LengthShapes /\ c.defect = "none") => (E.rt /\ E.rtMode /\ E.rtStd)
 LengthFormsRejected == c.defect \in LengthFormDefects => (E.strict = "reject" /\ E.mode = "reject" /\ E.std = "reject")
 RawContentKeeps == (E.mode = "accept" /\ UnderRawContent(Tree(c), c.path)) => E.rtMode
 
-Init == c \in Cases
-Next == UNCHANGED c
+Init == c \in Cases /\ vd = Verdict(c)
+Next == UNCHANGED <<c, vd>>
 =============================================================================
